@@ -254,6 +254,21 @@ pub fn build(p: &P) -> Cmd {
             });
             ctx.send_event(Event::got(s, v));
         }),
+        P::StreamHandOff(s, u) => Command::new(move |ctx| async move {
+            let mut st = astream(&ctx, s, 0);
+            // (a stream that ends before its first item ends the task: in the legacy API a dropped
+            // request wakes nobody, so only this reading is output-equivalent in both APIs)
+            if let Some(v) = st.next().await {
+                ctx.send_event(Event::got(s, v));
+                ctx.spawn(move |ctx| async move {
+                    while let Some(v) = st.next().await {
+                        ctx.send_event(Event::got(s, v));
+                    }
+                });
+                let x = areq(&ctx, u, 0).await;
+                ctx.send_event(Event::got(u, x));
+            }
+        }),
         P::HandOff(s, t, u) => Command::new(move |ctx| async move {
             let l = areq_owned(ctx.clone(), s, 0);
             let r = areq_owned(ctx.clone(), t, 0);
